@@ -385,6 +385,9 @@ def sorted_rle_gather_1d(rle_data, ordered_indices):
         index = next(index_iter)
     except StopIteration:
         return
+    if index < 0:
+        # the indices are ordered: the first one is the smallest
+        raise IndexError("Index %d is negative: the length is not known here" % index)
     start = 0
     while True:
         while start <= index:
@@ -528,6 +531,9 @@ def sorted_brle_gather_1d(brle_data, ordered_indices):
         index = next(index_iter)
     except StopIteration:
         return
+    if index < 0:
+        # the indices are ordered: the first one is the smallest
+        raise IndexError("Index %d is negative: the length is not known here" % index)
     start = 0
     value = True
     while True:
